@@ -27,20 +27,22 @@ REPLAYS = os.path.join(VERIF, "replays")
 FINDINGS = os.path.join(VERIF, "known_findings.json")
 SCRATCH = os.path.join(VERIF, "target", "scratch")
 
-SIM_PROFILES = ["C01", "C02", "C03", "C04", "C05", "C06", "C08", "C09", "C10", "C11", "C12", "C13", "C14"]
+SIM_PROFILES = ["C01", "C02", "C03", "C04", "C05", "C06", "C07", "C08", "C09", "C10", "C11", "C12", "C13", "C14", "C16"]
 
 # runs per tier (each run = one generated history; enumeration profiles execute many
 # fault plans / layouts per run)
 RUNS = {
-    "quick": {"C01": 1000000, "C02": 1000000, "C03": 1000000, "C04": 800000, "C05": 800000, "C06": 800000, "C08": 800000,
+    "quick": {"C07": 600000, "C16": 8000, "C01": 1000000, "C02": 1000000, "C03": 1000000, "C04": 800000, "C05": 800000, "C06": 800000, "C08": 800000,
               "C09": 50000, "C10": 40000, "C11": 200000, "C12": 800000, "C13": 800000, "C14": 800000},
-    "thorough": {"C01": 30000000, "C02": 30000000, "C03": 30000000, "C04": 20000000, "C05": 20000000, "C06": 20000000, "C08": 20000000,
+    "thorough": {"C07": 20000000, "C16": 150000, "C01": 30000000, "C02": 30000000, "C03": 30000000, "C04": 20000000, "C05": 20000000, "C06": 20000000, "C08": 20000000,
                  "C09": 400000, "C10": 300000, "C11": 3000000, "C12": 20000000, "C13": 20000000, "C14": 20000000},
 }
 
 LEVEL = {"C10": "fault_enumeration", "C11": "fault_enumeration", "C16": "fault_enumeration"}
 
 RULES = {
+    "C07": "seeded straight-line programs over the shared API surface (36 call kinds, values owning strong and Weak handles, leaking cycles, no adoption call) executed in lock step on cactusref and std::rc; every observation and the destructor log are compared; non-trivial = at least one value destroyed and >= 5 observations compared; distinct = distinct programs among those",
+    "C16": "for each seeded base history every (destructor position, stored handle) pair is turned into two child-process scenarios: clone that handle / drop it early; the parent judges the child's exit status against the model's verdict on the target (destroyed or doomed => must abort cleanly; reachable => must succeed); non-trivial = the target was destroyed or dying; distinct = distinct (call sequence, position, slot, action)",
     "C01": "seeded histories (structured shape + random walk + drain) that respect 'recorded <= held'; non-trivial = a group or an object with adoption records was destroyed while the program still held handles that were then dereferenced and counted; distinct = distinct explicit call sequences among those",
     "C02": "seeded histories with Weak handles, parallel/unequal-degree adoption shapes, same-handle self adoption; non-trivial = a group teardown or zero-count-with-records teardown ran (members' mutual handles dropped while dead); distinct = distinct explicit call sequences among those",
     "C03": "seeded structured shapes with random choice of the last outside handle; non-trivial = the orphan rule of the property (closure over recorded adoptions, all handles internal) fired at least once, i.e. a lower-bound obligation on a whole group was generated and checked; distinct = distinct explicit call sequences among those",
@@ -252,7 +254,7 @@ def minimise(prop, v, budget_s=120):
     # 4. simpler operations: unrecorded store instead of recorded, proper instead of elided
     for i, o in enumerate(list(ops)):
         t = o.split()
-        if t[0] == "Store" and t[3] == "1":
+        if t[0] == "Store" and len(t) > 3 and t[3] == "1":
             cand = ops[:i] + [" ".join(t[:3] + ["0"])] + ops[i + 1:]
             if fails(cand, faults, layouts):
                 ops = cand
@@ -419,7 +421,7 @@ def check_sim(prop, tier, seed, jobs):
         "known_findings_hit": hit,
         "regression_replays_executed": regress_n,
         "other_property_violations": other_kinds,
-        "components": {"real": ["cactusref (all modules, built from /repo working tree with --cfg cactusref_verif)", "hashbrown", "rustc-hash"],
+        "components": {"real": ["cactusref (all modules, built from /repo working tree with --cfg cactusref_verif)", "hashbrown", "rustc-hash"] + (["std::rc (reference implementation)"] if prop == "C07" else []),
                        "stub": ["payload value type (instrumented Node)", "global allocator (layout-scheduling arena)", "log backend (none installed)"]},
         "exhaustive": False,
     }
